@@ -584,6 +584,12 @@ def h_operator(trigger: int, at: int, su_dur: int, su_fails: bool, cu_dur: int, 
         bound = at + cu_dur + 5 + 10 + 2 * 1 + (su_dur if trig == 'stop_flag' and at < su_dur else 0) + 3
         if outcome['t_return'] > bound:
             ok = False
+    # 4b. the peering record was announced and is withdrawn on the way out
+    if c.get('peering') and started and not stopped_during_startup:
+        patches_ = [rt for rt, m_, path_ in requests if m_ == 'PATCH' and 'clusterkopfpeerings' in path_]
+        if len(patches_) < 2 or (peer.get('status') or {}).get('me') is not None:
+            ok = False
+        vkopf.witness('peering_withdrawn')
     # 5. in steady state the operator actually operated (vacuity): the object was listed, handled, and its daemon ran
     if started and not stopped_during_startup and trig in ('stop_flag', 'cancel') and fault is None and at > su_dur + 3:
         vkopf.witness('steady')
@@ -619,7 +625,9 @@ def obligations():
                   twins=['startup_failed', 'stopped_during_startup', 'cleanup', 'steady'], main=False))
     # an essential task fails: the watch stream of the served resource answers 500 until the retries are exhausted
     obs.append(Ob('h_operator', {'stream_fault': 'http500', 'pin': {'trigger': 2, 'su_fails': False}}, tiers=('quick', 'thorough'), timeout=900, path_timeout=300))
-    obs.append(Ob('h_operator', {'peering': True, 'pin': {'trigger': 0, 'su_fails': False}}, tiers=('thorough',), timeout=900, path_timeout=300))
+    obs.append(Ob('h_operator', {'peering': True, 'phase': 'steady', 'pin': {'trigger': 0, 'su_fails': False}}, tiers=('quick', 'thorough'), timeout=900,
+                  path_timeout=300, twins=['peering_withdrawn']))
+    obs.append(Ob('h_operator', {'peering': True, 'phase': 'startup', 'pin': {'trigger': 1, 'su_fails': False}}, tiers=('thorough',), timeout=900, path_timeout=300))
     obs.append(Ob('h_withdraw', {'early': True}, timeout=900, twins=['withdrawn_during_first_request']))
     # (the non-coarse cells -- all instants symbolic at once -- did not exhaust within an hour each: not claimed)
     return obs
